@@ -62,7 +62,8 @@ def run_schedule(w, actors_spec, prefix, choose, plan=None, max_steps=5000):
         p = dict(plan or {})
         p.update(sp.get('plan') or {})
         p['sched'] = {'prefix': prefix}
-        pid, st = run.run_cmd(w, 'put', sp['args'], stdin=sp.get('stdin', b''),
+        pid, st = run.run_cmd(w, sp.get('cmd', 'put'), sp['args'],
+                              stdin=sp.get('stdin', b''),
                               cwd=sp.get('cwd'), plan=p, sched_sock=cs,
                               env=sp.get('env'))
         cs.close()
